@@ -130,7 +130,7 @@ theorem barTrace_fm_hook {α : Type} (P : Ev → Option α) (c : Nat) (hP : ∀ 
   have k6 := fun ms ss => fm_nil_of_allAt hP (setUpdatedFrom_at cfg ts 0 ms ss) (by omega)
   have k7 := fun ms st' => fm_nil_of_allAt hP (runUpdFrom_at sc ts row 0 ms st') (by omega)
   have k8 := fun ops st' => fm_nil_of_allAt hP (runOps_at ts .after ops st') (by simp [Hook.phase]; omega)
-  have k9 := fun cur => fm_nil_of_allAt hP (notifs_at ts cur) (by omega)
+  have k9 := fun fuel i st' => fm_nil_of_allAt hP (runNotify_at sc ts row fuel i st') (by omega)
   simp only [BarParts.trace, barParts, List.filterMap_append, List.filterMap_cons, k1, k2, k3, k4, k5, k6, k7, k8, k9,
     List.filterMap_nil, List.nil_append, List.append_nil]
   cases P (Ev.before ts row price) <;> cases P (Ev.on ts row price) <;> cases P (Ev.after ts row price) <;>
@@ -255,29 +255,102 @@ theorem recOf_setUpdatedFrom (cfg : Cfg) (ts : Int) : ∀ (i : Nat) (ms : List M
       exact ih
     · exact ih
 
-theorem recOf_notifs (ts : Int) (cur : List Act) : recOf (cur.map (fun x => Ev.notify ts x.tag x.stamp x.m)) = [] := by
-  induction cur with
-  | nil => rfl
-  | cons a l ih => simp [recOf, recordedAct] at ih ⊢
+theorem doOp_noNotify (ts : Int) (h : Hook) (op : OpSpec) (st : St) : (doOp ts h op st).1.filterMap notifyAct = [] := by
+  unfold doOp
+  split
+  · rfl
+  · split
+    · split <;> rfl
+    · split
+      · rfl
+      · split <;> rfl
 
-theorem notifyAct_notifs (ts : Int) (cur : List Act) :
-    (cur.map (fun x => Ev.notify ts x.tag x.stamp x.m)).filterMap notifyAct = cur := by
-  induction cur with
-  | nil => rfl
-  | cons a l ih => simp only [List.map_cons, List.filterMap_cons, notifyAct]; rw [ih]
+theorem runOps_noNotify (ts : Int) (h : Hook) : ∀ (ops : List OpSpec) (st : St), (runOps ts h ops st).1.filterMap notifyAct = []
+  | [], _ => rfl
+  | op :: ops, st => by
+    simp only [runOps, List.filterMap_append, doOp_noNotify, runOps_noNotify ts h ops, List.append_nil]
+
+theorem cur_drop_of_getElem? {l : List Act} {i : Nat} {a : Act} (h : l[i]? = some a) (x : List Act) :
+    (l ++ x).drop i = a :: (l ++ x).drop (i + 1) := by
+  obtain ⟨hi, ha⟩ := List.getElem?_eq_some_iff.mp h
+  have hi' : i < (l ++ x).length := by rw [List.length_append]; omega
+  rw [List.drop_eq_getElem_cons hi', List.getElem_append_left hi, ha]
+
+/-- whatever the `notify` hook does, and whether or not the loop comes to an end: the installed triggers and the account rows stay -/
+theorem runNotify_trigs (sc : Script) (ts : Int) (row : Nat) : ∀ (fuel i : Nat) (st : St),
+    (runNotify sc ts row fuel i st).2.1.trigs = st.trigs ∧ (runNotify sc ts row fuel i st).2.1.rows = st.rows
+  | 0, _, _ => ⟨rfl, rfl⟩
+  | fuel + 1, i, st => by
+    unfold runNotify
+    split
+    · exact ⟨rfl, rfl⟩
+    · rename_i a _
+      have f0 := runOps_frame ts .notify (sc.notify row a.tag) st
+      obtain ⟨h1, h2⟩ := runNotify_trigs sc ts row fuel (i + 1) (runOps ts .notify (sc.notify row a.tag) st).2
+      exact ⟨by simp only []; rw [h1, f0.2.1], by simp only []; rw [h2, f0.1]⟩
+
+/-- a hook that does nothing in `notify`: the loop ends as soon as the fuel covers what is left of the list -/
+theorem runNotify_quiet (sc : Script) (ts : Int) (row : Nat) (hq : ∀ r t, sc.notify r t = []) : ∀ (fuel i : Nat) (st : St),
+    st.cur.length ≤ i + fuel → (runNotify sc ts row fuel i st).2.2 = true
+  | 0, i, st, h => by
+    simp only [runNotify]
+    have : st.cur[i]? = none := List.getElem?_eq_none_iff.mpr (by omega)
+    simp [this]
+  | fuel + 1, i, st, h => by
+    unfold runNotify
+    split
+    · rfl
+    · rename_i a _
+      simp only [hq, runOps]
+      exact runNotify_quiet sc ts row hq fuel (i + 1) st (by omega)
+
+/-- **the `notify` loop** (a loop that came to an end): rows and triggers untouched, the two action lists extended by exactly what the hook's
+    own operations recorded, and the deliveries are — in order, once each — the entries of `_currents.actions` from the iterator's start
+    position on, INCLUDING the ones appended while the loop ran -/
+theorem runNotify_book (sc : Script) (ts : Int) (row : Nat) : ∀ (fuel i : Nat) (st : St),
+    (runNotify sc ts row fuel i st).2.2 = true →
+    Frame st ((runNotify sc ts row fuel i st).1, (runNotify sc ts row fuel i st).2.1) ∧
+    (runNotify sc ts row fuel i st).1.filterMap notifyAct = (runNotify sc ts row fuel i st).2.1.cur.drop i
+  | 0, i, st, h => by
+    simp only [runNotify] at h ⊢
+    refine ⟨Frame.refl st, ?_⟩
+    have : st.cur.length ≤ i := List.getElem?_eq_none_iff.mp (by simpa using h)
+    simp [List.drop_eq_nil_of_le this]
+  | fuel + 1, i, st, h => by
+    unfold runNotify at h ⊢
+    split at h
+    · rename_i hn
+      simp only [hn]
+      refine ⟨Frame.refl st, ?_⟩
+      have : st.cur.length ≤ i := List.getElem?_eq_none_iff.mp hn
+      simp [List.drop_eq_nil_of_le this]
+    · rename_i a ha
+      simp only [ha]
+      simp only [] at h
+      obtain ⟨f1, f2⟩ := runNotify_book sc ts row fuel (i + 1) _ h
+      have f0 := runOps_frame ts .notify (sc.notify row a.tag) st
+      refine ⟨Frame.cons_silent _ rfl (Frame.trans f0 f1), ?_⟩
+      simp only [List.filterMap_cons, notifyAct, List.filterMap_append, runOps_noNotify, List.nil_append, f2]
+      have hc : (runNotify sc ts row fuel (i + 1) (runOps ts .notify (sc.notify row a.tag) st).2).2.1.cur
+          = st.cur ++ (recOf (runOps ts .notify (sc.notify row a.tag) st).1 ++
+              recOf (runNotify sc ts row fuel (i + 1) (runOps ts .notify (sc.notify row a.tag) st).2).1) := by
+        rw [f1.2.2.1, f0.2.2.1, List.append_assoc]
+      rw [hc, cur_drop_of_getElem? ha]
+      cases a; rfl
 
 theorem notifyAct_phase (e : Ev) (h : (notifyAct e).isSome) : e.phase = 15 := by
   cases e <;> simp [notifyAct] at h
   rfl
 
-/-- the bookkeeping of one bar: rows untouched until the end, both action lists extended by what the bar recorded, and the
-    `notify` calls at its end deliver exactly `_currents.actions` -/
-theorem barParts_book (cfg : Cfg) (sc : Script) (row : Nat) (ts : Int) (st : St) (price : Option Int) :
+/-- the bookkeeping of one bar whose `notify` loop came to an end: rows untouched until the end, both action lists extended by what the bar
+    recorded (operations issued from inside `notify` included), and the `notify` calls deliver exactly the final `_currents.actions` -/
+theorem barParts_book (cfg : Cfg) (sc : Script) (row : Nat) (ts : Int) (st : St) (price : Option Int)
+    (hdone : (barParts cfg sc row ts st price).nt.2.2 = true) :
     let p := barParts cfg sc row ts st price
-    p.a.2.rows = st.rows ∧
-    p.a.2.cur = st.cur ++ recOf (p.trace row ts) ∧
-    p.a.2.all = st.all ++ recOf (p.trace row ts) ∧
-    (p.trace row ts).filterMap notifyAct = p.a.2.cur := by
+    p.nt.2.1.rows = st.rows ∧
+    p.nt.2.1.cur = st.cur ++ recOf (p.trace row ts) ∧
+    p.nt.2.1.all = st.all ++ recOf (p.trace row ts) ∧
+    (p.trace row ts).filterMap notifyAct = p.nt.2.1.cur := by
   intro p
   have fb : Frame { st with ms := p.s1.2 } p.b := runOps_frame ts .before _ _
   have ff : Frame p.b.2 p.f := runFires_frame sc ts row _ _
@@ -285,16 +358,17 @@ theorem barParts_book (cfg : Cfg) (sc : Script) (row : Nat) (ts : Int) (st : St)
   have fn : Frame p.o.2 p.n := runOps_frame ts .on _ _
   have fu : Frame { p.n.2 with ms := p.s2.2 } p.u := runUpdFrom_frame sc ts row 0 _ _
   have fa : Frame p.u.2 p.a := runOps_frame ts .after _ _
+  obtain ⟨fnt, hdel⟩ := runNotify_book sc ts row (p.a.2.cur.length + sc.fuel) 0 p.a.2 hdone
+  have fnt' : Frame p.a.2 (p.nt.1, p.nt.2.1) := fnt
+  have hdel' : p.nt.1.filterMap notifyAct = p.nt.2.1.cur := by
+    have : p.nt.1.filterMap notifyAct = p.nt.2.1.cur.drop 0 := hdel
+    simpa using this
   have hs1 : recOf p.s1.1 = [] := recOf_setAllFrom cfg ts 1 0 _
   have hs2 : recOf p.s2.1 = [] := recOf_setUpdatedFrom cfg ts 0 _ _
-  have hrec : recOf (p.trace row ts) = recOf p.b.1 ++ recOf p.f.1 ++ recOf p.o.1 ++ recOf p.n.1 ++ recOf p.u.1 ++ recOf p.a.1 := by
+  have hrec : recOf (p.trace row ts) = recOf p.b.1 ++ recOf p.f.1 ++ recOf p.o.1 ++ recOf p.n.1 ++ recOf p.u.1 ++ recOf p.a.1 ++ recOf p.nt.1 := by
     simp only [BarParts.trace, recOf_append, hs1, hs2, List.nil_append, List.append_nil]
     simp only [recOf, List.filterMap_cons, recordedAct]
-    have := recOf_notifs ts p.a.2.cur
-    simp only [recOf] at this
-    rw [this]
-    simp
-  have hno : (p.trace row ts).filterMap notifyAct = p.a.2.cur := by
+  have hno : (p.trace row ts).filterMap notifyAct = p.nt.1.filterMap notifyAct := by
     have k1 := fm_nil_of_allAt notifyAct_phase (setAllFrom_at cfg ts 1 0 cfg.markets) (c' := stagePhase 1) (by simp [stagePhase])
     have k2 := fun ops st' => fm_nil_of_allAt notifyAct_phase (runOps_at ts .before ops st') (by simp [Hook.phase])
     have k3 := fun fs st' => fm_nil_of_allAt notifyAct_phase (runFires_at sc ts row fs st') (by omega)
@@ -306,13 +380,15 @@ theorem barParts_book (cfg : Cfg) (sc : Script) (row : Nat) (ts : Int) (st : St)
     have e : p = barParts cfg sc row ts st price := rfl
     rw [e]
     simp only [BarParts.trace, barParts, List.filterMap_append, List.filterMap_cons, k1, k2, k3, k4, k5, k6, k7, k8,
-      notifyAct, List.nil_append, List.append_nil, notifyAct_notifs]
-  refine ⟨?_, ?_, ?_, hno⟩
-  · rw [fa.1, fu.1, fn.1, fo.1, ff.1, fb.1]
-  · rw [hrec, fa.2.2.1, fu.2.2.1, fn.2.2.1, fo.2.2.1, ff.2.2.1, fb.2.2.1]
+      notifyAct, List.nil_append, List.append_nil]
+  have hcur : p.nt.2.1.cur = st.cur ++ recOf (p.trace row ts) := by
+    rw [hrec, fnt'.2.2.1, fa.2.2.1, fu.2.2.1, fn.2.2.1, fo.2.2.1, ff.2.2.1, fb.2.2.1]
     simp only [List.append_assoc]
-  · rw [hrec, fa.2.2.2, fu.2.2.2, fn.2.2.2, fo.2.2.2, ff.2.2.2, fb.2.2.2]
+  refine ⟨?_, hcur, ?_, ?_⟩
+  · rw [fnt'.1, fa.1, fu.1, fn.1, fo.1, ff.1, fb.1]
+  · rw [hrec, fnt'.2.2.2, fa.2.2.2, fu.2.2.2, fn.2.2.2, fo.2.2.2, ff.2.2.2, fb.2.2.2]
     simp only [List.append_assoc]
+  · rw [hno, hdel']
 
 
 end Demeter.Core
